@@ -203,8 +203,8 @@ def step (_ : Unit) (line : String) : Unit × String :=
         if place == "guard" then
           if img.length < ctl then "bad-op" else
           -- nothing is mapped after the buffer, except the < 8 bytes of slack up to the next 8-byte boundary
-          showIter ctl (Cmsg.iterate Cmsg.NOMINAL_BASE (img.take (Cmsg.cmsgAlign ctl)) ctl)
-        else if place == "tail" then showIter ctl (Cmsg.iterate Cmsg.NOMINAL_BASE img ctl)
+          showIter ctl (Cmsg.iterate true Cmsg.NOMINAL_BASE (img.take (Cmsg.cmsgAlign ctl)) ctl)
+        else if place == "tail" then showIter ctl (Cmsg.iterate true Cmsg.NOMINAL_BASE img ctl)
         else "bad-op"
       | _, _ => "bad-op"
     | ["cmsgraw", ctl, img] =>
@@ -212,7 +212,14 @@ def step (_ : Unit) (line : String) : Unit × String :=
       match ctl.toNat?, Drv.unhex img with
       | some ctl, some img =>
         if img.length < ctl || img.length % 8 != 0 || img.isEmpty then "bad-op" else
-        showIter ctl (Cmsg.iterate Cmsg.NOMINAL_BASE img ctl)
+        showIter ctl (Cmsg.iterate true Cmsg.NOMINAL_BASE img ctl)
+      | _, _ => "bad-op"
+    | ["cmsgraworig", ctl, img] =>
+      -- the iterator before commit 8263fff (driver only: the code it describes is no longer in /repo)
+      match ctl.toNat?, Drv.unhex img with
+      | some ctl, some img =>
+        if img.length < ctl || img.length % 8 != 0 || img.isEmpty then "bad-op" else
+        showIter ctl (Cmsg.iterate false Cmsg.NOMINAL_BASE img ctl)
       | _, _ => "bad-op"
     | ["cmsgwf", ctl, img] =>
       match ctl.toNat?, Drv.unhex img with
@@ -233,7 +240,7 @@ def step (_ : Unit) (line : String) : Unit × String :=
         let msgs := nfds.map fun n => (List.range n).map (· + 100)
         let g := List.replicate (len + 64) 170
         let (mem, ctl) := Cmsg.kernelFill msgs len g
-        let r := Cmsg.iterate Cmsg.NOMINAL_BASE (mem.take (Cmsg.cmsgAlign len)) ctl
+        let r := Cmsg.iterate true Cmsg.NOMINAL_BASE (mem.take (Cmsg.cmsgAlign len)) ctl
         let shape := fun (ms : List (List Nat)) => if ms.isEmpty then "-" else ",".intercalate (ms.map (toString ·.length))
         match r.bad with
         | some .fault => "signal 11"
